@@ -1,9 +1,9 @@
 SPECIFICATION Spec
 CONSTANTS
   FixNilRecover = TRUE
-  MaxArgs = 2
+  MaxArgs = 1
   MaxSteps = 4
-  MaxEx = 2
+  MaxEx = 1
   Outs = {"ok", "err", "panic", "pnil", "exit"}
 INVARIANTS TypeOK FinishedOnce CommitIffAllOk NoLaterStep NoBeginForEmpty RetRight GoneOnlyByExit
 PROPERTIES StepsOnlyInOpenTx ExecInsideTx FinishGuard NothingAfterAnswer
